@@ -108,7 +108,7 @@ def run_property(pid, tier='quick', seed=0):
     from pyvc.load import build
     _w, _reg, _stubs = build()
     jobs = []
-    for q in prop.functions:
+    for q in list(prop.functions) + (list(prop.thorough_functions) if tier == 'thorough' else []):
         c = _reg.get(q)
         if c is not None and c.ncases:
             jobs.extend((q, timeout_ms, True, i) for i in range(c.ncases))
@@ -279,7 +279,8 @@ def run_property(pid, tier='quick', seed=0):
         'trusted_base': sorted(set(prop.trusted_base) | {'stub: ' + s for s in stubs_used}
                                | {'pyvc encoding of Python semantics (pyvc/*.py), cross-checked by selftest mutants',
                                   'z3 5.1.0'}),
-        'functions_under_contract': list(prop.functions),
+        'functions_under_contract': list(prop.functions) + (list(prop.thorough_functions) if tier == 'thorough' else []),
+        'thorough_only_functions': list(prop.thorough_functions),
         'lemmas': ['%s.%s' % l for l in prop.lemmas],
         'callee_contracts_used': sorted(contracts_used),
         'inlined_helpers': sorted(inlined),
